@@ -222,7 +222,13 @@ def r03_4(ck: Check) -> None:
     init = [e for e in cr if e.value == spo.term("PKBalance(0, [])")]
     main = [e for e in cr if e.value == want_credit]
     construct = "pkb_apply_transaction: credit the receiving key of every output (value + output value; reference (tx id, position) appended)"
-    if len(cr) == 2 and len(init) == 1 and len(main) == 1 and not residual(main[0], ()) and list(loop_doms(main[0])) == spo.loops \
+    # the same update written with a default: m[k] = PKBalance(m.get(k, PKBalance(0, [])).value + o.value, m.get(k, ...).output_references + [ref])
+    want_get = spo.term("PKBalance(m.get(o.public_key, PKBalance(0, [])).value + o.value, "
+                        "m.get(o.public_key, PKBalance(0, [])).output_references + [OutputReference(tx.hash(), k)])")
+    via_get = [e for e in cr if e.value == want_get]
+    if len(cr) == 1 and len(via_get) == 1 and not residual(via_get[0], ()) and list(loop_doms(via_get[0])) == spo.loops:
+        ck.ok("R03.4", construct, "same reference construction as uto_apply_transaction (default via .get)", via_get[0].loc)
+    elif len(cr) == 2 and len(init) == 1 and len(main) == 1 and not residual(main[0], ()) and list(loop_doms(main[0])) == spo.loops \
             and [c.term for c in residual(init[0], ())] == [("cmp", "notin", okey, m)] and init[0].seq < main[0].seq:
         ck.ok("R03.4", construct, "same reference construction as uto_apply_transaction", main[0].loc)
     else:
